@@ -44,6 +44,7 @@ type Item struct {
 	HB    int    `json:"hb,omitempty"` // step: 0 = API thread, k+1 = heartbeat writer k
 	Api   string `json:"api,omitempty"`
 	Stale bool   `json:"stale,omitempty"`
+	SilentAge int `json:"silent_age,omitempty"` // age used instead of Age when the holder's heartbeat writer has been found gone
 	Age   int    `json:"age,omitempty"` // step on a Stat: logical age (ms) of the time stamp presented; 0 with Stale = one hour
 	// macros (expanded into steps while running; the executed steps are what is recorded and replayed):
 	// K = "until": step C's API thread until it is blocked at operation Op on Class (the Skip+1-th time), without executing it;
@@ -57,6 +58,7 @@ type Scenario struct {
 	Tag     string `json:"tag"`
 	Backend string `json:"backend"` // os | mem
 	Ovr     []bool `json:"ovr"`
+	Objs    []int  `json:"objs,omitempty"` // lock object used by each API thread (default: one object each); threads sharing an object share its cancel store
 	Items   []Item `json:"items"`
 	NoParent bool  `json:"noparent,omitempty"` // the directory the lock lives in does not exist (oracle only, no Coq case)
 	Short   bool   `json:"short,omitempty"` // the generator may issue LockWithTimeout calls whose deadline fires
@@ -212,6 +214,9 @@ func retCode(err error) int {
 
 type contender struct {
 	lock    filesystem.ILock
+	obj     int         // lock object it uses
+	wrap    *lsched.Fs  // the scheduling wrapper of that object
+	silent  bool        // oracle: its heartbeat writer is gone although it holds, is alive and nothing was released
 	inCall  bool
 	api     string
 	ret     atomic.Pointer[int]
@@ -275,11 +280,21 @@ func newEngine(sc *Scenario, runRoot string) (*engine, error) {
 	e.s = lsched.New(dirPath, filepath.Join(dirPath, "x.lock"))
 	e.ctx, e.cancel = context.WithCancel(context.Background())
 	for c, ov := range sc.Ovr {
-		vfs, ok := filesystem.NewVirtualFileSystem(e.s.Wrap(inner, c), kind, filesystem.IdentityPathConverterFunc).(*filesystem.VFS)
+		obj := c
+		if c < len(sc.Objs) && sc.Objs[c] < c && sc.Objs[c] >= 0 {
+			obj = sc.Objs[c] // shares the lock object of an earlier thread
+		}
+		if obj != c {
+			o := e.cs[obj]
+			e.cs = append(e.cs, &contender{lock: o.lock, wrap: o.wrap, obj: o.obj, alive: true, eng: -1})
+			continue
+		}
+		w := e.s.Wrap(inner, c)
+		vfs, ok := filesystem.NewVirtualFileSystem(w, kind, filesystem.IdentityPathConverterFunc).(*filesystem.VFS)
 		if !ok {
 			return nil, errors.New("not a VFS")
 		}
-		e.cs = append(e.cs, &contender{lock: filesystem.NewGenericRemoteLockFile(vfs, "x", base, ov), alive: true, eng: -1})
+		e.cs = append(e.cs, &contender{lock: filesystem.NewGenericRemoteLockFile(vfs, "x", base, ov), wrap: w, obj: c, alive: true, eng: -1})
 	}
 	return e, nil
 }
@@ -289,7 +304,36 @@ func (e *engine) liveOwner() bool {
 		return false
 	}
 	y := e.cs[e.creator[e.curGen]]
+	return y.alive && y.eng == e.curGen && !y.silent
+}
+
+// heldLive: the creator of the present directory holds (or is acquiring) it and is alive — whether or not its heartbeat
+// writer is still there (the removal oracle; liveOwner is the proviso on the ages presented)
+func (e *engine) heldLive() bool {
+	if e.curGen < 0 {
+		return false
+	}
+	y := e.cs[e.creator[e.curGen]]
 	return y.alive && y.eng == e.curGen
+}
+
+// another API thread is inside a call on the lock object of c
+func (e *engine) objBusy(c int) bool {
+	for d, y := range e.cs {
+		if d != c && y.obj == e.cs[c].obj && y.inCall {
+			return true
+		}
+	}
+	return false
+}
+
+func (e *engine) shared(c int) bool {
+	for d, y := range e.cs {
+		if d != c && y.obj == e.cs[c].obj {
+			return true
+		}
+	}
+	return false
 }
 
 func (e *engine) fail(sig, what string) {
@@ -304,9 +348,13 @@ func (e *engine) avail() (calls, steps, hbs, kills []Item) {
 		}
 		if x.inCall {
 			steps = append(steps, Item{K: "step", C: c})
+		} else if e.objBusy(c) {
+			// one API thread at a time inside a call on one lock object
 		} else if x.holds {
 			calls = append(calls, Item{K: "call", C: c, Api: "Unlock"})
-			kills = append(kills, Item{K: "kill", C: c})
+			if !e.shared(c) {
+				kills = append(kills, Item{K: "kill", C: c})
+			}
 		} else {
 			for _, a := range apis[:3] {
 				calls = append(calls, Item{K: "call", C: c, Api: a})
@@ -341,7 +389,7 @@ func (e *engine) exec(it Item) bool {
 	x := e.cs[it.C]
 	switch it.K {
 	case "kill":
-		if !x.alive || !x.holds || x.inCall {
+		if !x.alive || !x.holds || x.inCall || e.shared(it.C) {
 			e.out.Invalid = "kill not enabled"
 			return false
 		}
@@ -351,10 +399,11 @@ func (e *engine) exec(it Item) bool {
 		e.out.Kinds["kill"]++
 		return true
 	case "call":
-		if !x.alive || x.inCall || (it.Api == "Unlock") != x.holds {
+		if !x.alive || x.inCall || (it.Api == "Unlock") != x.holds || e.objBusy(it.C) {
 			e.out.Invalid = "call not enabled"
 			return false
 		}
+		x.wrap.SetActor(it.C)
 		if it.Api == "Unlock" {
 			// the live heartbeat writer must be at its OpenFile (not asleep) when the cancel store is cancelled, so that
 			// what it does afterwards is determined by the schedule and not by the wall clock
@@ -364,8 +413,12 @@ func (e *engine) exec(it Item) bool {
 					return false
 				}
 			}
-			for k := range x.hbCanc {
-				x.hbCanc[k] = true
+			for _, y := range e.cs {
+				if y.obj == x.obj { // the cancel store of the lock object: every writer started through it
+					for k := range y.hbCanc {
+						y.hbCanc[k] = true
+					}
+				}
 			}
 			x.holds = false
 			x.relGen, x.rmOwn = x.eng, false
@@ -415,6 +468,11 @@ func (e *engine) exec(it Item) bool {
 			e.finishCall(it.C, nil)
 		}
 		return true
+	case "probe":
+		if k := it.HB - 1; k >= 0 && k < len(x.hbPC) {
+			e.hbGone(it.C, k)
+		}
+		return true
 	case "deadline":
 		if !x.inCall || x.api != shortAPI {
 			e.out.Invalid = "deadline not enabled"
@@ -445,7 +503,7 @@ func (e *engine) exec(it Item) bool {
 				}
 				skip--
 			}
-			if !e.stepMain(Item{K: "step", C: it.C, Stale: it.Stale && !e.liveOwner() && e.curGen >= 0, Age: it.Age}) {
+			if !e.stepMain(Item{K: "step", C: it.C, Stale: it.Stale && !e.liveOwner() && e.curGen >= 0, Age: it.Age, SilentAge: it.SilentAge}) {
 				return false
 			}
 		}
@@ -465,14 +523,40 @@ func (e *engine) exec(it Item) bool {
 	return false
 }
 
+// hbGone is the oracle "heartbeat-writer-gone-while-holder-alive": writer k of contender c belongs to a live holder, its
+// lock object has not been unlocked, the contexts the harness passed are live — so it must come back to the scheduler
+// within a period (50 ms); it is given 30 periods.
+func (e *engine) hbGone(c, k int) bool {
+	x := e.cs[c]
+	if !(x.holds && x.alive && !x.inCall && k == len(x.hbPC)-1 && x.hbPC[k] != 2 && !x.hbCanc[k]) {
+		return false
+	}
+	if p, _ := e.s.WaitPending(lsched.Actor{C: c, HB: k}, nil, 1500*time.Millisecond); p != nil {
+		return false
+	}
+	x.silent = true
+	x.hbPC[k] = 2
+	// recorded, so that a replay looks for the writer at the same point of the schedule (not an item of the model)
+	e.out.Items = append(e.out.Items, Item{K: "probe", C: c, HB: k + 1})
+	e.out.Obs = append(e.out.Obs, nil)
+	e.fail("heartbeat-writer-gone-while-holder-alive", fmt.Sprintf("the heartbeat writer of contender %d has stopped although the contender holds the lock, is alive and no Unlock was issued on its lock object", c))
+	return true
+}
+
 func (e *engine) stepHb(it Item) bool {
 	x := e.cs[it.C]
 	k := it.HB - 1
+	if k < len(x.hbPC) && x.hbPC[k] == 2 && x.silent {
+		return true // the writer was found gone (reported): its remaining turns are void
+	}
 	if k >= len(x.hbPC) || x.hbPC[k] == 2 {
 		e.out.Invalid = "heartbeat step not enabled"
 		return false
 	}
 	a := lsched.Actor{C: it.C, HB: k}
+	if e.hbGone(it.C, k) {
+		return true // reported by the oracle; the schedule goes on without this writer
+	}
 	p, _ := e.s.WaitPending(a, nil, waitT)
 	if p == nil {
 		e.out.Stuck = "heartbeat writer not pending"
@@ -540,6 +624,10 @@ func (e *engine) stepMain(it Item) bool {
 	}
 	age := 0
 	if p.Op == "Stat" {
+		if it.SilentAge > 0 && e.curGen >= 0 && e.cs[e.creator[e.curGen]].silent {
+			it.Age = it.SilentAge
+		}
+		it.SilentAge = 0
 		age = it.Age
 		if age == 0 && it.Stale {
 			age = 3600000
@@ -571,7 +659,7 @@ func (e *engine) stepMain(it Item) bool {
 		x.eng = e.curGen
 		x.mkThis = true
 	case p.Op == "Remove" && p.Class == "dir" && res == "ok":
-		if e.liveOwner() {
+		if e.heldLive() {
 			y := e.creator[e.curGen]
 			e.out.Bad = true
 			sig := ""
@@ -676,6 +764,14 @@ func (e *engine) finish() {
 	for _, x := range e.cs {
 		if x.holds && x.alive {
 			e.out.Holders++
+		}
+	}
+	// the heartbeat writer of every live holder must still be running
+	if e.out.Stuck == "" && e.out.Invalid == "" {
+		for c, x := range e.cs {
+			if k := len(x.hbPC) - 1; k >= 0 {
+				e.hbGone(c, k)
+			}
 		}
 	}
 	// a heartbeat writer that was cancelled must not come back after its last Chtimes (one period = 50 ms)
@@ -996,10 +1092,26 @@ func coqCase(sc *Scenario, o *Outcome) string {
 		b.WriteString(h.Bool(v))
 	}
 	b.WriteString("]%list [")
-	for i, it := range o.Items {
+	for i := range sc.Ovr {
 		if i > 0 {
 			b.WriteString(";")
 		}
+		obj := i
+		if i < len(sc.Objs) && sc.Objs[i] >= 0 && sc.Objs[i] < i {
+			obj = sc.Objs[i]
+		}
+		fmt.Fprintf(&b, "%d", obj)
+	}
+	b.WriteString("]%list [")
+	first := true
+	for i, it := range o.Items {
+		if it.K == "probe" {
+			continue // the oracle's look for a heartbeat writer: not an event of the model
+		}
+		if !first {
+			b.WriteString(";")
+		}
+		first = false
 		switch it.K {
 		case "call":
 			fmt.Fprintf(&b, "C_ %d %d", it.C, apiCode(it.Api))
@@ -1182,6 +1294,34 @@ func corners() []*Scenario {
 		call(0, "LockWithTimeout"), untilN(0, "Mkdir", "dir", 1, false))
 	add("timeout-free-lock", fff, call(1, shortAPI), deadline(1), fin(1, false), call(2, "TryLock"), fin(2, false))
 
+	// ---- several API threads share ONE lock object (one cancel store): thread 0 holds, thread 1 uses the same object,
+	// thread 2 is an overriding contender with its own object.  Nothing thread 1 does may stop the holder's heartbeat
+	// writer (it must keep getting its turns), and thread 2 must keep getting "locked"
+	{
+		sh := func(tag string, ovr []bool, items ...Item) {
+			out = append(out, &Scenario{Tag: tag, Backend: "os", Ovr: ovr, Objs: []int{0, 0, 2}, Items: items})
+		}
+		over := func(c int) []Item { // the overriding contender looks at the lock: a live holder's time stamps are fresh;
+			// if the holder's writer has been found gone they are as old as they would really be
+			return one(call(c, "TryLock"), Item{K: "finish", C: c, Age: 40, SilentAge: 150})
+		}
+		hold := one(call(0, "TryLock"), fin(0, false), hb(0, 0), hb(0, 0))
+		beat := one(hb(0, 0), hb(0, 0), hb(0, 0), hb(0, 0))
+		for _, ov := range [][]bool{{false, false, true}, {true, true, true}} {
+			sh("shared-trylock-fails", ov, cat(hold, one(call(1, "TryLock"), fin(1, false)), beat, over(2),
+				one(call(1, "LockWithTimeout"), untilN(1, "Mkdir", "dir", 2, false)), beat, over(2))...)
+			sh("shared-second-user-acquires-later", ov, cat(hold, one(call(1, "TryLock"), fin(1, false)), beat,
+				one(call(0, "Unlock"), fin(0, false), call(1, "Lock"), fin(1, false), hb(1, 0), hb(1, 0)), over(2),
+				one(call(0, "TryLock"), fin(0, false), hb(1, 0), hb(1, 0), call(1, "Unlock"), fin(1, false)), over(2))...)
+			sh("shared-lwt-times-out", ov, cat(hold, one(call(1, shortAPI), untilN(1, "Mkdir", "dir", 1, false), deadline(1), fin(1, false)),
+				beat, over(2), beat, one(call(1, "TryLock"), fin(1, false)), over(2), one(call(0, "Unlock"), fin(0, false)))...)
+			sh("shared-lwt-times-out-before-first-beat", ov, cat(one(call(0, "Lock"), fin(0, false)),
+				one(call(1, shortAPI), step(1), step(1), deadline(1), fin(1, false)), beat, over(2), one(call(0, "Unlock"), fin(0, false)), over(2))...)
+			sh("shared-lwt-times-out-twice", ov, cat(hold, one(call(1, shortAPI), deadline(1), fin(1, false)), beat,
+				one(call(1, shortAPI), untilN(1, "Mkdir", "dir", 2, false), deadline(1), fin(1, false)), beat, over(2))...)
+		}
+	}
+
 	// ---- logical ages around every threshold the code could use (heartbeat period 50 ms, poll 10 ms; stale iff > 100 ms)
 	// live holder parked before its first heartbeat write (empty lock directory) / with its heartbeat file: never stale
 	for _, withHb := range []bool{false, true} {
@@ -1254,7 +1394,7 @@ func runAll(jobs []*job, runRoot string, par int, budget time.Duration) (skipped
 }
 
 func replayOf(sc *Scenario, o *Outcome) *Scenario {
-	return &Scenario{Tag: sc.Tag, Backend: sc.Backend, Ovr: sc.Ovr, Items: o.Items, NoParent: sc.NoParent, Atomic: sc.Atomic, Short: sc.Short}
+	return &Scenario{Tag: sc.Tag, Backend: sc.Backend, Ovr: sc.Ovr, Objs: sc.Objs, Items: o.Items, NoParent: sc.NoParent, Atomic: sc.Atomic, Short: sc.Short}
 }
 
 func main() {
@@ -1291,6 +1431,26 @@ func main() {
 			r.Count("timing-unreliable-discarded")
 			r.Note("scenario " + sc.Tag + " discarded: " + o.Unreliable)
 			return
+		}
+		for _, f := range o.Fails {
+			if f.Sig == "heartbeat-writer-gone-while-holder-alive" {
+				// timing-dependent observation (a goroutine that does not come back): confirmed 3 of 3 before it is reported
+				confirmed := true
+				for i := 0; i < 2 && confirmed; i++ {
+					o2 := runScenario(replayOf(sc, o), runRoot)
+					found := false
+					for _, g := range o2.Fails {
+						found = found || g.Sig == f.Sig
+					}
+					confirmed = found
+				}
+				if !confirmed {
+					r.Note("scenario " + sc.Tag + ": heartbeat writer seen gone once, not confirmed; scenario discarded")
+					r.Count("timing-unreliable-discarded")
+					return
+				}
+				break
+			}
 		}
 		for _, f := range o.Fails {
 			sig := f.Sig
@@ -1371,7 +1531,17 @@ func main() {
 			tag = "random-atomic"
 		}
 		short := r.Rng.Intn(100) < 20
-		jobs = append(jobs, &job{sc: &Scenario{Tag: fmt.Sprintf("%s:%d", tag, i), Backend: b, Ovr: ovr, Atomic: atomic, Short: short, Seed: 1 + r.Rng.Int63n(1<<40), Max: 200 + r.Rng.Intn(250)}})
+		var objs []int
+		if n >= 3 && r.Rng.Intn(100) < 25 {
+			// threads 0 and 1 use one lock object
+			objs = make([]int, n)
+			for k := range objs {
+				objs[k] = k
+			}
+			objs[1] = 0
+			ovr[1] = ovr[0]
+		}
+		jobs = append(jobs, &job{sc: &Scenario{Tag: fmt.Sprintf("%s:%d", tag, i), Backend: b, Ovr: ovr, Objs: objs, Atomic: atomic, Short: short, Seed: 1 + r.Rng.Int63n(1<<40), Max: 200 + r.Rng.Intn(250)}})
 	}
 	budget := 100 * time.Second
 	if r.Thorough() || r.Deep {
